@@ -14,7 +14,7 @@ oracle   : metamorphic, on the real implementation: the SAME workspace rendered 
 """
 import json
 
-from .. import core, scopelib
+from .. import core, scopelib, lintcheck
 from ..gen import ws
 
 PROP = "C17"
@@ -131,6 +131,8 @@ def run(ctx):
                     ctx.oracle_fail("C17:parse-diagnostics", "re-casing changed the parser diagnostics of file %s" % v.files[k][0],
                                     {"workspace": v.id, "file": k, "as_written": d0[:300], "recased": d1[:300], "case": v.to_json(), "base": g[0].to_json()})
     ctx.count("metamorphic comparisons", ncmp)
+    # the linters' sites of the conjunction: all diagnostics other than the naming conventions, on re-cased programs
+    lintcheck.recase_oracle(ctx, 300 if ctx.tier == "quick" else 6000)
     ctx.extract_detail = getattr(ctx, "extract_info", {})
     ctx.samples = [{"workspace": g[1].id, "file": g[1].files[0][0], "as_written": g[0].files[0][1][:700], "recased": g[1].files[0][1][:700]}
                    for g in groups[:2]] + [{"workspace": groups[-1][4].id, "recased": groups[-1][4].files[0][1][:700]}]
@@ -147,6 +149,20 @@ RULE = ("cases = generated workspaces (as C10), each rendered five times: as wri
 def replay(ctx):
     d = json.load(open(ctx.replay))
     case = d.get("case", {})
+    if isinstance(case, dict) and case.get("mode") == "lint":
+        ctx.build_harness()
+        a, b = ctx.run_harness("lint", ["lint " + core.esc(case["as_written"]), "lint " + core.esc(case["text"])])
+        mine = lambda cr: not cr.startswith("naming:")
+        pa = lintcheck.per_method_impl({"text": case["as_written"]}, (lintcheck.parse_out(a) or ([],))[0], mine)
+        pb = lintcheck.per_method_impl({"text": case["text"]}, (lintcheck.parse_out(b) or ([],))[0], mine)
+        print("as written:\n" + case["as_written"])
+        print("re-cased:\n" + case["text"])
+        print("diagnostics as written (per method):", pa)
+        print("diagnostics re-cased   (per method):", pb)
+        if pa != pb:
+            print("VIOLATION property=%s replay=%s" % (PROP, ctx.replay))
+            return 1
+        return 0
     if not isinstance(case, dict) or "case" not in case or "base" not in case:
         print("replay file names no input:", json.dumps(d.get("broken", d), indent=1)[:3000])
         return 1
